@@ -429,6 +429,33 @@ def run(ctx):
                     ctx.violate("forced-id-sticks-to-the-fault-object",
                                 {"api": "Fault." + how, "forced": rid, "config": cname}, {"second_message": out[1]})
 
+    # ids generated by many short-lived threads, one after the other (thread identifiers are reused by the OS) and at
+    # the same time: unique per call means unique across the threads of the process, too
+    import threading
+    for wave in range(ctx.pick(2, 12)):
+        got = []
+
+        def worker():
+            for _ in range(3):
+                got.append(jr.dump([1], "m", config=cfgs[0][1])["id"])
+        sequential = wave % 2 == 0
+        ths = [threading.Thread(target=worker, name="vf-idgen") for _ in range(120 if sequential else 16)]
+        for t in ths:
+            t.start()
+            if sequential:
+                t.join()
+        for t in ths:
+            t.join()
+        ctx.case(("ids-from-threads", wave), nontrivial=True)
+        for gid in got:
+            tk = gen.trepr(gid)
+            ctx.count("judged:id-generated-unique")
+            if tk in st.seen:
+                ctx.violate("generated-id-repeated:across-threads", {"api": "dump", "threads": "one after the other"
+                                                                    if sequential else "concurrent"}, {"id": gid})
+                break
+            st.seen.add(tk)
+
     # random deep params / results
     nr = ctx.pick(15000, 300000)
     for i in range(nr):
